@@ -174,8 +174,36 @@ def make(interp):
             f = lambda v: GCDF(a, b, z3.ToReal(toz3(v)) if z3.is_int(toz3(v)) else toz3(v))
             return SArr(x.shape, lambda idx: f(x.get(idx))) if isinstance(x, SArr) else f(x)
         return Obj("GammaDist", {"cdf": B(cdf)})
-    interp.dist = {"GCDF": GCDF}
-    numpyro_ns = {"distributions": {"Gamma": B(Gamma)}}
+    # log / exp only as inverse pair: exp(log_prob(x)) = pmf(x)   (assumed: numpyro's log_prob is the log of the mathematical pmf)
+    LOGP = z3.Function("LOGP", z3.RealSort(), z3.RealSort()); EXPF = z3.Function("EXP", z3.RealSort(), z3.RealSort())
+    def exp1(t):
+        t = toz3(t)
+        if z3.is_app(t) and t.decl().name() == "LOGP": return t.arg(0)
+        return EXPF(z3.ToReal(t) if z3.is_int(t) else t)
+    jnp["exp"] = B(A.elementwise(exp1))
+    NBPMF = z3.Function("NegBinPMF", z3.RealSort(), z3.RealSort(), z3.IntSort(), z3.RealSort())     # (total_count, probs, k)
+    def _real(v):
+        v = v.get(tuple(0 for _ in v.shape)) if isinstance(v, SArr) and all(concrete_int(s_) == 1 for s_ in v.shape) else v
+        v = toz3(v); return z3.ToReal(v) if z3.is_int(v) else v
+    def _int(v):
+        v = v.get(tuple(0 for _ in v.shape)) if isinstance(v, SArr) and all(concrete_int(s_) == 1 for s_ in v.shape) else v
+        return toz3(v)
+    def NegBin(total_count=None, probs=None):
+        n, q = _real(total_count), _real(probs)
+        def log_prob(x):
+            f = lambda k: LOGP(NBPMF(n, q, toz3(k)))
+            return SArr(x.shape, lambda idx: f(x.get(idx))) if isinstance(x, SArr) else f(x)
+        return Obj("NegBinDist", {"log_prob": B(log_prob)})
+    MULT = {}
+    def Multinomial(logits=None, total_count=None):
+        m = concrete_int(logits.shape[0]); assert m is not None
+        if m not in MULT: MULT[m] = z3.Function(f"MultinomialPMF{m}", *([z3.RealSort()] * m + [z3.IntSort()] * (m + 1)), z3.RealSort())
+        lg = [_real(logits.get((j,))) for j in range(m)]; tot = _int(total_count)
+        def log_prob(x):
+            return LOGP(MULT[m](*lg, tot, *[_int(x.get((j,))) for j in range(m)]))
+        return Obj("MultinomialDist", {"log_prob": B(log_prob)})
+    interp.dist = {"GCDF": GCDF, "NBPMF": NBPMF, "MULT": MULT, "LOGP": LOGP}
+    numpyro_ns = {"distributions": {"Gamma": B(Gamma), "NegativeBinomialProbs": B(NegBin), "Multinomial": B(Multinomial)}}
     return {"jax": jax, "jax.numpy": jnp, "jax.random": random_ns, "numpyro": numpyro_ns, "numpyro.distributions": numpyro_ns["distributions"], "numpy": np, "loguru": {"logger": logger},
             "jaxtyping": {k: Unres(k) for k in ("Array", "Float", "Int")},
             "typing": {k: Unres(k) for k in ("Tuple", "Callable", "Any", "Literal", "TypeAlias")},
